@@ -30,10 +30,15 @@ PROP = dict(
          'without a partial line, stdin closed = failing writes, output for lines the client does not wait on, no answer at all = the client blocks) or the '
          'real Engine.Run (whole short games, a refused position); 1-3 games per client, boards repeated at later move numbers, deadlines (none / passed / less than 1 ms ahead / '
          'future) and TimeControls with 0 / sub-millisecond / exact-millisecond / huge / negative values, players of earlier games; L1 = what every call '
-         'returned (move / error class / panic class / hang) and every line the engine process received. formatTime on boundary and random int64 values (F cases).',
+         'returned (move / error class / panic class / hang) and every line the engine process received. formatTime on boundary and random int64 values (F cases). '
+         '(d) SELFPLAY (W cases): cmd/internal/selfplay worker (in-package driver) plays 1-3 games per session between two engine PROCESSES (real Engine.Run depth 1-2, '
+         'sizes 3-5, openings empty or a few plies in, colours swapped, Cutoff 4..43, no clock / hour clocks with 0, 1 s, 10 s increment / Limit 1 h), one time loss '
+         '(a scripted engine answering after 1.5 s with 1 s on the clock) and one illegal answer (panic); oracle: moves legal in sequence, final position, winner '
+         '(board / clock / cutoff), clock values on the wire; L1 = status, per-game moves + position + winner, the lines both engines received (clock numbers masked).',
     assumptions=['searches are compared only when the clock cannot cut them (budget absent or >= 20 s); tiny-clock scripts are judged by the oracle only',
                  'the searcher is a parameter of the theorems; the correspondence runs the engine model with the search model of Search.v '
                  '(NoSort, no null move, no slide reduction, depth 1-2)',
+                 'selfplay: wall-clock readings (durations, time left) are inputs of the model; the tie runs it with 0 ns durations (1.5 s for the one slow call) and masks the clock numbers of go lines; log.Fatalf paths (they exit the process) are not exercised by the tie',
                  'client sessions: the time left until a FUTURE deadline is read off the go line the client wrote (whole ms, checked to lie within 20 s below the '
                  'offset) and given to the model as its input; the two sessions in which the client blocks for ever are recognised by a 3 s watchdog',
                  'an engine process that dies while the client is ahead of it (after it closed a pipe or left extra output) makes writes race: such scripts are not generated'],
